@@ -276,19 +276,12 @@ func runC12(c *core.Ctx) error {
 			return
 		}
 		for i, v := range sinks {
-			ok := false
-			for _, pv := range core.PhiClosure(v) {
-				if ex, isEx := pv.(*ssa.Extract); isEx && ex.Index == 0 {
-					if call, isCall := ex.Tuple.(*ssa.Call); isCall && call.Common().StaticCallee() == normFn {
-						ok = true
-					}
-				}
-			}
 			key := fmt.Sprintf("%s:%s#%d", fn.Name(), sinkDesc, i)
+			ok, why := normalizedOrInvalid(v, normFn, map[ssa.Value]bool{})
 			if ok {
-				r3.Pass(key + " flows from uri.NormalizeEscapedPath")
+				r3.Pass(key + " is NormalizeEscapedPath's output, or its raw input only on the edge where normalisation reported an invalid escape")
 			} else {
-				r3.Fail(key, c.Pos(pos), sinkDesc+" does not flow from uri.NormalizeEscapedPath: equivalent spellings of a path are treated as different")
+				r3.Fail(key, c.Pos(pos), sinkDesc+" "+why+": equivalent spellings of a path are treated as different")
 			}
 		}
 	}
@@ -348,4 +341,99 @@ func exprOfArg(c *core.Ctx, prog *core.Prog, call ssa.CallInstruction) string {
 		}
 	}
 	return "?"
+}
+
+// normalizedOrInvalid: v is Extract#0 of a NormalizeEscapedPath call, or a phi
+// whose every other incoming value is that call's own argument arriving on
+// the ok==false edge.
+func normalizedOrInvalid(v ssa.Value, normFn *ssa.Function, seen map[ssa.Value]bool) (bool, string) {
+	isNorm := func(x ssa.Value) *ssa.Call {
+		if ex, ok := x.(*ssa.Extract); ok && ex.Index == 0 {
+			if call, ok := ex.Tuple.(*ssa.Call); ok && call.Common().StaticCallee() == normFn {
+				return call
+			}
+		}
+		return nil
+	}
+	if isNorm(v) != nil {
+		return true, ""
+	}
+	phi, ok := v.(*ssa.Phi)
+	if !ok {
+		return false, "does not flow from uri.NormalizeEscapedPath"
+	}
+	if seen[v] {
+		return true, ""
+	}
+	seen[v] = true
+	// find the call among the edges
+	var call *ssa.Call
+	for _, e := range phi.Edges {
+		if c := isNorm(e); c != nil {
+			call = c
+		}
+	}
+	if call == nil {
+		return false, "does not flow from uri.NormalizeEscapedPath"
+	}
+	okVal := extractOf(call, 1)
+	falseBlocks := core.EdgeBlocks(okVal, false)
+	for i, e := range phi.Edges {
+		if isNorm(e) == call {
+			continue
+		}
+		if !sameRawInput(e, call.Common().Args[0]) {
+			return false, "can also take a value that is neither the normalised text nor the raw input"
+		}
+		pred := phi.Block().Preds[i]
+		onFalse := false
+		for _, fb := range falseBlocks {
+			if fb.Dominates(pred) {
+				onFalse = true
+			}
+		}
+		// direct edge from the `if ok` block to the merge block
+		if iff, isIf := pred.Instrs[len(pred.Instrs)-1].(*ssa.If); isIf {
+			cond := iff.Cond
+			neg := false
+			if u, isU := cond.(*ssa.UnOp); isU && u.Op == token.NOT {
+				cond, neg = u.X, true
+			}
+			if cond == okVal {
+				falseSucc := pred.Succs[1]
+				if neg {
+					falseSucc = pred.Succs[0]
+				}
+				if falseSucc == phi.Block() {
+					onFalse = true
+				}
+			}
+		}
+		if !onFalse {
+			return false, "falls back to the raw, un-normalised text on a path where normalisation succeeded"
+		}
+	}
+	return true, ""
+}
+
+// sameRawInput: identical values, or two loads of the same captured variable
+// that is never stored to inside the function.
+func sameRawInput(a, b ssa.Value) bool {
+	if a == b {
+		return true
+	}
+	la, ok1 := a.(*ssa.UnOp)
+	lb, ok2 := b.(*ssa.UnOp)
+	if !ok1 || !ok2 || la.Op != token.MUL || lb.Op != token.MUL || la.X != lb.X {
+		return false
+	}
+	if _, isFree := la.X.(*ssa.FreeVar); !isFree {
+		return false
+	}
+	for _, ref := range *la.X.Referrers() {
+		if st, ok := ref.(*ssa.Store); ok && st.Addr == la.X {
+			return false
+		}
+	}
+	return true
 }
